@@ -2,7 +2,7 @@
    The model (Machine.v, Merge.v, ArrayShift.v) is executable Gallina; its extraction is run against the real
    momo code on every check (props/C10/harness.cpp vs ocaml/driver.ml). *)
 From Coq Require Import ZArith List Permutation.
-From C10 Require Import Machine Merge MergeProofs ArrayShift ArrayProofs.
+From C10 Require Import Machine Merge MergeProofs ArrayShift ArrayProofs MapModel MapProofs FastMerge.
 Import ListNotations.
 Local Open Scope Z_scope.
 
@@ -151,13 +151,12 @@ Theorem C10_array_wellformed_after_any_failure :
 Proof. exact run_wf. Qed.
 Print Assumptions C10_array_wellformed_after_any_failure.
 
-(* positional insert of a range (arrays of up to 8 elements, up to 4 inserted items, every index; the bounds of the
-   two branches are checked by a symbolic sweep): never touches a raw slot, well formed after success or failure,
-   old count <= count <= old count + inserted *)
+(* positional insert of a range (arrays of ANY size, any number of inserted items, every index; the bounds of both
+   branches of InsertNogrow are proved by induction over its loops): never touches a raw slot, well formed after
+   success or failure, old count <= count <= old count + inserted *)
 Theorem C10_array_basic_insert :
   forall c w vals cap index items w' a' o,
-    (length vals <= 8)%nat -> (index <= length vals)%nat -> (length items <= 4)%nat ->
-    (length vals + length items <= cap)%nat ->
+    (index <= length vals)%nat -> (length vals + length items <= cap)%nat ->
     run c w (mk_arr vals cap) (insert_prog (length vals) index items) = (w', a', o) ->
     o <> AStuck /\ wf a' /\ length (slots a') = cap /\
     (length vals <= count a')%nat /\ (count a' <= length vals + length items)%nat /\
@@ -167,7 +166,7 @@ Print Assumptions C10_array_basic_insert.
 
 Theorem C10_array_basic_remove :
   forall c w vals cap index cnt w' a' o,
-    (length vals <= 8)%nat -> (cnt <= 4)%nat -> (index + cnt <= length vals)%nat -> (length vals <= cap)%nat ->
+    (index + cnt <= length vals)%nat -> (length vals <= cap)%nat ->
     run c w (mk_arr vals cap) (remove_prog (length vals) index cnt) = (w', a', o) ->
     o <> AStuck /\ wf a' /\ length (slots a') = cap /\
     (o = AOk -> count a' = (length vals - cnt)%nat) /\ (o = AExn -> count a' = length vals).
@@ -197,3 +196,130 @@ Theorem C10_merge_unique_nodup_linear :
     NoDup (map key (ldst_items (lrun c false n (linit src dst w shape)))).
 Proof. exact lmerge_unique_nodup. Qed.
 Print Assumptions C10_merge_unique_nodup_linear.
+
+(* ---- pvMergeToLinear, sorted unique inputs: refused items stay, a completed merge leaves only refused items *)
+Theorem C10_merge_refused_stays_linear :
+  forall c src dst w shape n y, ksorted src -> ksorted dst ->
+    In y src -> has_key dst (key y) = true -> In y (lsrc_items (lrun c false n (linit src dst w shape))).
+Proof. exact lmerge_refused_stays. Qed.
+Print Assumptions C10_merge_refused_stays_linear.
+
+Theorem C10_merge_finished_complete_linear :
+  forall c src dst w shape n, ksorted src -> ksorted dst ->
+    l_stat (lrun c false n (linit src dst w shape)) = Finished ->
+    l_rest (lrun c false n (linit src dst w shape)) = [] /\
+    forall y, In y (lsrc_items (lrun c false n (linit src dst w shape))) ->
+      has_key (ldst_items (lrun c false n (linit src dst w shape))) (key y) = true.
+Proof. exact lmerge_finished_complete. Qed.
+Print Assumptions C10_merge_finished_complete_linear.
+
+(* ---- maps: key/value pairs relocated by MapKeyValueTraits (MapUtility.h:215-475), merge loop over pair items.
+   pair_safe kc vc = the key type or the value type is nothrow-anyway-assignable: the complement is exactly the
+   exception documented in HashMap.h:349-354 item 5 / TreeMap.h. *)
+(* under that hypothesis: at every step of a map merge, for every schedule, category pair and partner oracle, the
+   key/value PAIRS of source (+) destination are the initial pairs *)
+Theorem C10_map_merge_conservation :
+  forall kc vc src dst w shape n, pair_safe kc vc ->
+    Permutation (pall (prun kc vc n (pinit src dst w shape))) (src ++ dst).
+Proof. exact pmerge_conservation. Qed.
+Print Assumptions C10_map_merge_conservation.
+
+(* without any hypothesis (also in the documented exception): the KEYS are conserved, every value is one of the initial
+   values, and the destination keeps unique keys *)
+Theorem C10_map_merge_keys_conserved :
+  forall kc vc src dst w shape n,
+    Permutation (map fst (pall (prun kc vc n (pinit src dst w shape)))) (map fst (src ++ dst)).
+Proof. exact pmerge_keys_conserved. Qed.
+Print Assumptions C10_map_merge_keys_conserved.
+
+Theorem C10_map_merge_values_from_initial :
+  forall kc vc src dst w shape n p,
+    In p (pall (prun kc vc n (pinit src dst w shape))) -> In (snd p) (map snd (src ++ dst)).
+Proof. exact pmerge_values_from_initial. Qed.
+Print Assumptions C10_map_merge_values_from_initial.
+
+Theorem C10_map_merge_unique_nodup :
+  forall kc vc src dst w shape n, NoDup (map pkey dst) -> NoDup (map pkey (p_dst (prun kc vc n (pinit src dst w shape)))).
+Proof. exact pmerge_unique_nodup. Qed.
+Print Assumptions C10_map_merge_unique_nodup.
+
+(* the documented limitation is REAL (conservation of pairs is refuted when key and value are both copy-only): a concrete
+   schedule -- the key assignment inside pvReplaceUnsafe throws -- after which value 22 is lost and value 11 duplicated;
+   the same happens in the real code (tie cases `pm CPY CPY reprel 3 ..`, `px CPY CPY copy ..`, oracle map_* CPY). *)
+Theorem C10_map_merge_conservation_refuted_for_copy_only_pairs :
+  p_stat witness_state = Failed /\
+  pall witness_state = [(100, 11); (200, 11); (101, 99)] /\
+  ~ Permutation (pall witness_state) ([(100, 11); (200, 22)] ++ [(101, 99)]) /\
+  ~ pair_safe CPY CPY.
+Proof. exact pmerge_limitation_witness. Qed.
+Print Assumptions C10_map_merge_conservation_refuted_for_copy_only_pairs.
+
+(* MapExtractedPair: extraction conserves pairs under the hypothesis; re-insertion conserves them for every category pair *)
+Theorem C10_map_extract_conservation :
+  forall kc vc w b i w' b' h ok, pair_safe kc vc -> (i < length b)%nat ->
+    pextract_at kc vc w b i = (w', b', h, ok) ->
+    Permutation (match h with None => [] | Some x => [x] end ++ b') b /\ (ok = false -> b' = b /\ h = None).
+Proof. exact pextract_at_conservation. Qed.
+Print Assumptions C10_map_extract_conservation.
+
+Theorem C10_map_insert_handle_conservation :
+  forall kc vc w dst h w' dst' h' st, pinsert_holder kc vc w dst h = (w', dst', h', st) ->
+    Permutation (match h' with None => [] | Some x => [x] end ++ dst') (match h with None => [] | Some x => [x] end ++ dst) /\
+    (h' = h /\ dst' = dst \/ exists x, h = Some x /\ h' = None /\ dst' = dst ++ [x] /\ phas_key dst (pkey x) = false).
+Proof. exact pinsert_holder_conservation. Qed.
+Print Assumptions C10_map_insert_handle_conservation.
+
+(* ---- TreeSet::MergeTo(TreeSet&), empty traits + equal managers: swap / pvMergeFast / loops (FastMerge.v) *)
+(* whichever path is taken, with any number of node allocations on the joining path, whichever separator, and
+   wherever an allocation or the separator's relocation throws: source (+) destination is conserved *)
+Theorem C10_merge_to_equal_managers_conservation :
+  forall c multi src dst w shape nalloc swap st s' d' w',
+    tree_merge_to_eq c multi src dst w shape nalloc swap = (st, s', d', w') -> Permutation (s' ++ d') (src ++ dst).
+Proof. exact merge_to_eq_conservation. Qed.
+Print Assumptions C10_merge_to_equal_managers_conservation.
+
+(* shape of the result: generic loops, or "threw: nothing changed", or "source empty, destination = concatenation in
+   the order allowed by the ordering tests" *)
+Theorem C10_merge_to_equal_managers_spec :
+  forall c multi src dst w shape nalloc swap st s' d' w',
+    tree_merge_to_eq c multi src dst w shape nalloc swap = (st, s', d', w') ->
+    (generic_path multi src dst /\ tree_merge_to c multi src dst w shape = (st, s', d', w')) \/
+    (st = Failed /\ s' = src /\ d' = dst) \/
+    (st = Finished /\ s' = [] /\
+     (d' = dst ++ src /\ (src = [] \/ dst = [] \/ sets_ordered multi dst src = true) \/
+      d' = src ++ dst /\ sets_ordered multi dst src = false /\ key (last src 0) < key (hd 0 dst))).
+Proof. exact merge_to_eq_spec. Qed.
+Print Assumptions C10_merge_to_equal_managers_spec.
+
+Theorem C10_no_copy_when_movable_fast_merge :
+  forall c multi src dst w shape nalloc swap st s' d' w', nothrow_reloc c = true -> no_copy (tr w) ->
+    tree_merge_to_eq c multi src dst w shape nalloc swap = (st, s', d', w') -> no_copy (tr w').
+Proof. exact merge_to_eq_no_copy. Qed.
+Print Assumptions C10_no_copy_when_movable_fast_merge.
+
+(* unique keys: a completed swap / fast merge of strictly sorted trees empties the source and yields a strictly sorted,
+   duplicate-free destination *)
+Theorem C10_fast_merge_unique_sorted :
+  forall c src dst w shape nalloc swap s' d' w', ksorted src -> ksorted dst ->
+    tree_merge_to_eq c false src dst w shape nalloc swap = (Finished, s', d', w') ->
+    ~ generic_path false src dst -> ksorted d' /\ NoDup (map key d') /\ s' = [].
+Proof. exact merge_to_eq_fast_sorted. Qed.
+Print Assumptions C10_fast_merge_unique_sorted.
+
+(* multi keys (103bce4): equivalent keys are never reordered across the trees, destination items stay first *)
+Theorem C10_fast_merge_multi_keeps_destination_first :
+  forall c src dst w shape nalloc swap s' d' w', ksle src -> ksle dst ->
+    tree_merge_to_eq c true src dst w shape nalloc swap = (Finished, s', d', w') ->
+    ~ generic_path true src dst ->
+    s' = [] /\
+    ((d' = dst ++ src /\ forall a b, In a dst -> In b src -> key a <= key b) \/
+     (d' = src ++ dst /\ forall a b, In a src -> In b dst -> key a < key b)).
+Proof. exact merge_to_eq_fast_multi_order. Qed.
+Print Assumptions C10_fast_merge_multi_keeps_destination_first.
+
+(* maps: keys and values that both have a move constructor are never copied by a map merge *)
+Theorem C10_no_copy_when_movable_map_merge :
+  forall kc vc src dst w shape n, nothrow_reloc kc = true -> nothrow_reloc vc = true ->
+    no_copy (tr w) -> no_copy (tr (p_w (prun kc vc n (pinit src dst w shape)))).
+Proof. exact pmerge_no_copy. Qed.
+Print Assumptions C10_no_copy_when_movable_map_merge.
